@@ -18,6 +18,11 @@ CONSTANTS
   CpuLim, MemLim,     \* hard limits that a push may request (0 = none)
   CpuSoft, MemSoft,   \* soft limits that a push may request
   CpuAmt, MemAmt,     \* amounts for RequireCPU / RequireMem / ReleaseMem
+  MsLim, MsSoft,      \* hard / soft time limits (milliseconds) that a push may request (0 = none)
+  Ticks,              \* amounts by which the clock may advance between two calls ({} = time stands still)
+  ThrInc,             \* cpuThresholdIncrement: CPU units between two looks at the clock
+  MaxClk,             \* bound on the clock
+  OldPopOrder,        \* TRUE: PopContext as it was before the repair (charge the parent copy, then reinstate it)
   XFlags,     \* extra compliance flags a push may request (subset of {"iosafe","timesafe"})
   MaxDepth,   \* bound on Len(stack)
   MaxFrames,  \* bound on nested CallContext calls
@@ -33,10 +38,11 @@ VARIABLES
   pan,     \* in-flight Go panic: "none" | "term" (ContextTerminationError) | "other"
   fail,    \* ghost: the request that raised the in-flight termination, [r |-> "cpu"|"mem"|"none", n |-> amount]
   last,    \* what the last completed call returned to its caller (observable)
-  hist     \* history of actions (hidden by the VIEW): the path that is replayed
+  hist,    \* history of actions (hidden by the VIEW): the path that is replayed
+  clk      \* the wall clock in ms (the code reads it with now(); the harness drives it through the verif hook)
 
-vars == <<stack, frames, pan, fail, last, hist>>
-View == <<stack, frames, pan, fail>>      \* `last` and `hist` are outputs only
+vars == <<stack, frames, pan, fail, last, hist, clk>>
+View == <<stack, frames, pan, fail, clk>>      \* `last` and `hist` are outputs only
 
 Emit(v) == IF Emitting THEN PrintT(<<"@@", ToJson(v)>>) ELSE TRUE
 
@@ -52,17 +58,29 @@ MergeR(r, r1) == IF SmallerLimit(r1, r) THEN r1 ELSE r
 NoCtx == [nil |-> TRUE]
 
 RootCtx == [hc |-> 0, hm |-> 0, sc |-> 0, sm |-> 0, uc |-> 0, um |-> 0,
+            hms |-> 0, sms |-> 0, ums |-> 0, start |-> 0, tt |-> FALSE, thr |-> 0,
             flags |-> {}, status |-> "live", stop |-> {}, tc |-> FALSE, tm |-> FALSE, cause |-> "none"]
 
-Due(c) == "soft" \in c.stop \/ AtLimit(c.uc, c.sc) \/ AtLimit(c.um, c.sm)
+Due(c) == "soft" \in c.stop \/ AtLimit(c.uc, c.sc) \/ AtLimit(c.um, c.sm) \/ AtLimit(c.ums, c.sms)
 
-(* requireCPU on a context record: <<context', panics>> *)
-ReqC(c, n) ==
-  IF ~c.tc THEN <<c, FALSE>>
-  ELSE IF "hard" \in c.stop /\ c.status = "live" THEN <<[c EXCEPT !.status = "killed"], TRUE>>
+(* updateTimeUsed at clock value `now`: <<context', panics>>.  The elapsed time is stored first, then compared. *)
+UpdTime(c, now) ==
+  LET c1 == [c EXCEPT !.ums = now - c.start] IN
+  IF AtLimit(c1.ums, c.hms) /\ c.status = "live" THEN <<[c1 EXCEPT !.status = "killed"], TRUE>>
+  ELSE <<c1, FALSE>>
+
+(* requireCPU on a context record at clock value `now`: <<context', panics, why>>.
+   The clock is only looked at when the CPU used passes the next threshold; a time termination leaves the
+   threshold and the elapsed time updated but not the CPU counter. *)
+ReqC(c, n, now) ==
+  IF ~c.tc THEN <<c, FALSE, "none">>
+  ELSE IF "hard" \in c.stop /\ c.status = "live" THEN <<[c EXCEPT !.status = "killed"], TRUE, "stop">>
   ELSE LET u == Add(c.uc, n) IN
-       IF AtLimit(u, c.hc) /\ c.status = "live" THEN <<[c EXCEPT !.status = "killed", !.cause = "cpu"], TRUE>>
-       ELSE <<[c EXCEPT !.uc = u], FALSE>>
+       IF AtLimit(u, c.hc) /\ c.status = "live" THEN <<[c EXCEPT !.status = "killed", !.cause = "cpu"], TRUE, "cpu">>
+       ELSE IF c.tt /\ c.thr <= u
+            THEN LET r == UpdTime([c EXCEPT !.thr = u + ThrInc], now) IN
+                 IF r[2] THEN <<r[1], TRUE, "time">> ELSE <<[r[1] EXCEPT !.uc = u], FALSE, "none">>
+            ELSE <<[c EXCEPT !.uc = u], FALSE, "none">>
 
 ReqM(c, n) ==
   IF ~c.tm THEN <<c, FALSE>>
@@ -71,54 +89,73 @@ ReqM(c, n) ==
        IF AtLimit(u, c.hm) /\ c.status = "live" THEN <<[c EXCEPT !.status = "killed", !.cause = "mem"], TRUE>>
        ELSE <<[c EXCEPT !.um = u], FALSE>>
 
-(* PushContext: the new active context computed from the current one *)
-Child(p, d) ==
+(* PushContext: the new active context computed from the current one (whose elapsed time has just been
+   refreshed when it tracks time).  The CPU threshold for the next look at the clock is NOT reset: it is
+   inherited although the child's CPU counter restarts at 0. *)
+Child(p, d, now) ==
   LET hc == MergeR(RemoveR(p.hc, p.uc), d.hc)
       hm == MergeR(RemoveR(p.hm, p.um), d.hm)
+      hms == MergeR(RemoveR(p.hms, p.ums), d.hms)
       sc == MergeR(MergeR(hc, p.sc), d.sc)
       sm == MergeR(MergeR(hm, p.sm), d.sm)
+      sms == MergeR(MergeR(hms, p.sms), d.sms)
+      tt == hms > 0 \/ sms > 0
   IN [hc |-> hc, hm |-> hm, sc |-> sc, sm |-> sm, uc |-> 0, um |-> 0,
+      hms |-> hms, sms |-> sms, ums |-> 0, start |-> now, tt |-> tt, thr |-> p.thr,
       flags |-> p.flags \cup d.flags \cup (IF d.hc > 0 THEN {"cpusafe"} ELSE {})
-                                    \cup (IF d.hm > 0 THEN {"memsafe"} ELSE {}),
+                                    \cup (IF d.hm > 0 THEN {"memsafe"} ELSE {})
+                                    \cup (IF d.hms > 0 THEN {"timesafe"} ELSE {}),
       status |-> "live", stop |-> p.stop, cause |-> "none",
-      tc |-> (hc > 0 \/ sc > 0), tm |-> (hm > 0 \/ sm > 0)]
+      tc |-> (hc > 0 \/ sc > 0 \/ tt), tm |-> (hm > 0 \/ sm > 0)]
 
-(* PopContext on a stack: the parent copy is re-charged through its own
-   RequireCPU / RequireMem, which may terminate it; in that case the panic
-   leaves before `*m = *m.parent` and the stack is NOT popped. *)
-PopRes(st) ==
-  IF Len(st) = 1 THEN [st |-> st, pan |-> FALSE, ret |-> NoCtx]
+(* the first half of PushContext: <<parent', panics>> *)
+PushPre(p, now) == IF p.tt THEN UpdTime(p, now) ELSE <<p, FALSE>>
+
+(* PopContext on a stack: the parent is reinstated first, then re-charged through its own RequireCPU /
+   RequireMem, which may terminate it (only by looking at the clock: the child's use always fits), then
+   its elapsed time is refreshed, which may terminate it too.  Whatever terminates the parent, the context
+   that is ending is gone (PoppedAtEnd).  OldPopOrder is the order before the repair: the parent copy was
+   charged first and a termination left before `*m = *m.parent`. *)
+PopRes(st, now) ==
+  IF Len(st) = 1 THEN [st |-> st, pan |-> FALSE, ret |-> NoCtx, why |-> "none", n |-> 0]
   ELSE LET n == Len(st)
            child == st[n]
            cp == IF child.status = "live" THEN [child EXCEPT !.status = "done"] ELSE child
-           r1 == ReqC(st[n-1], child.uc)
-       IN IF r1[2] THEN [st |-> [st EXCEPT ![n-1] = r1[1]], pan |-> TRUE, ret |-> NoCtx]
+           r1 == ReqC(st[n-1], child.uc, now)
+           Popped(c) == Append(SubSeq(st, 1, n-2), c)
+           After(c) == IF OldPopOrder THEN [st EXCEPT ![n-1] = c] ELSE Popped(c)
+       IN IF r1[2] THEN [st |-> After(r1[1]), pan |-> TRUE, ret |-> NoCtx, why |-> r1[3], n |-> child.uc]
           ELSE LET r2 == ReqM(r1[1], child.um) IN
-               IF r2[2] THEN [st |-> [st EXCEPT ![n-1] = r2[1]], pan |-> TRUE, ret |-> NoCtx]
+               IF r2[2] THEN [st |-> After(r2[1]), pan |-> TRUE, ret |-> NoCtx, why |-> "mem", n |-> child.um]
+               ELSE
+               LET r3 == IF r2[1].tt THEN UpdTime(r2[1], now) ELSE <<r2[1], FALSE>> IN
+               IF r3[2] THEN [st |-> Popped(r3[1]), pan |-> TRUE, ret |-> NoCtx, why |-> "time", n |-> 0]
                ELSE
                (* popped.  A child killed by a limit it merely inherited (all that its parent had left)
                   means the parent's own limit was reached: the parent is terminated too. *)
                LET par == st[n-1]
                    leftc == RemoveR(par.hc, par.uc)
                    leftm == RemoveR(par.hm, par.um)
-                   p2 == r2[1]
+                   p2 == r3[1]
                    prop == IF child.status # "killed" \/ p2.status # "live" THEN "none"
                            ELSE IF child.cause = "cpu" /\ leftc > 0 /\ child.hc = leftc THEN "cpu"
                            ELSE IF child.cause = "mem" /\ leftm > 0 /\ child.hm = leftm THEN "mem"
                            ELSE "none"
                IN IF prop = "none"
-                  THEN [st |-> Append(SubSeq(st, 1, n-2), p2), pan |-> FALSE, ret |-> cp]
-                  ELSE [st |-> Append(SubSeq(st, 1, n-2), [p2 EXCEPT !.status = "killed", !.cause = prop]), pan |-> TRUE, ret |-> NoCtx]
+                  THEN [st |-> Popped(p2), pan |-> FALSE, ret |-> cp, why |-> "none", n |-> 0]
+                  ELSE [st |-> Popped([p2 EXCEPT !.status = "killed", !.cause = prop]), pan |-> TRUE, ret |-> NoCtx,
+                        why |-> "prop", n |-> 0]
 
 -----------------------------------------------------------------------------
 (* observable projection: what the RuntimeContext interface exposes *)
 
 ProjCtx(c) == IF "nil" \in DOMAIN c THEN [nil |-> TRUE]
               ELSE [hc |-> c.hc, hm |-> c.hm, sc |-> c.sc, sm |-> c.sm, uc |-> c.uc, um |-> c.um,
+                    hms |-> c.hms, sms |-> c.sms, ums |-> c.ums,
                     status |-> c.status, flags |-> c.flags, due |-> Due(c)]
 ProjStack(st) == [i \in 1..Len(st) |-> ProjCtx(st[i])]
 
-Defs == [hc : CpuLim, hm : MemLim, sc : CpuSoft, sm : MemSoft, flags : SUBSET XFlags]
+Defs == [hc : CpuLim, hm : MemLim, sc : CpuSoft, sm : MemSoft, hms : MsLim, sms : MsSoft, flags : SUBSET XFlags]
 
 -----------------------------------------------------------------------------
 (* ghost bookkeeping: each CallContext in progress remembers `base`, the
@@ -151,6 +188,18 @@ CtxViolAt(st, i) ==
 
 CtxViol(st) == UNION { CtxViolAt(st, i) : i \in 1..Len(st) }
 
+(* Time.  The clock is only looked at in PushContext, PopContext and when the CPU threshold is passed; at each
+   of those points that completes without a termination, no context in progress may have used up its time
+   (a child never has more time than its parent has left, and their clocks advance together), and the budget
+   of a child is at most what the parent had left when it was created. *)
+TimeViol(st, now, after) ==
+  UNION { (IF st[i].hms > 0 /\ st[i].status = "live" /\ now - st[i].start >= st[i].hms
+             THEN {[inv |-> "TimeExact", why |-> "over-time-after-" \o after, lvl |-> i]} ELSE {})
+     \cup (IF i > 1 /\ st[i-1].hms > 0 /\ ~LimLeq(st[i].hms, RemoveR(st[i-1].hms, st[i].start - st[i-1].start))
+             THEN {[inv |-> "BudgetConservation", why |-> "time", lvl |-> i]} ELSE {})
+     \cup (IF ~LimLeq(st[i].sms, st[i].hms) THEN {[inv |-> "SoftWithinHard", why |-> "soft>hard-time", lvl |-> i]} ELSE {})
+          : i \in 1..Len(st) }
+
 (* Exactness / uninterceptability.  Given that every single request kills
    exactly when used + n reaches the hard limit (conformance of ReqC/ReqM) and
    that a pop charges the parent with exactly the child's use, a computation
@@ -172,6 +221,7 @@ Init == /\ stack = <<RootCtx>>
         /\ fail = NoFail
         /\ last = [op |-> "init"]
         /\ hist = <<>>
+        /\ clk = 0
 
 (* common tail of every action: record the event, emit the replayable line *)
 Step(ev, st, fr, p, fl, l, extraViol) ==
@@ -181,6 +231,7 @@ Step(ev, st, fr, p, fl, l, extraViol) ==
   /\ fail' = IF p = "none" THEN NoFail ELSE fl
   /\ last' = l
   /\ hist' = IF Emitting THEN Append(hist, ev) ELSE hist
+  /\ clk' = clk
   /\ Emit([h |-> hist', exp |-> [stack |-> ProjStack(st), pan |-> p, last |-> l, nframes |-> Len(fr)],
            viol |-> CtxViol(st) \cup extraViol])
 
@@ -195,19 +246,25 @@ Quiet == pan = "none"
    checked against this assumption by trace validation (QuotaTrace).        *)
 Live == Quiet /\ stack[Len(stack)].status = "live"
 
+(* PushContext refreshes (and enforces) the elapsed time of the current context first: when its time is up the
+   termination leaves before anything is pushed *)
 Push(d) ==
   /\ RawOps /\ Live /\ Len(stack) < MaxDepth
-  /\ Step([op |-> "push", def |-> d], Append(stack, Child(stack[Len(stack)], d)), frames, "none", NoFail,
-          [op |-> "push"], {})
+  /\ LET n == Len(stack)
+         pre == PushPre(stack[n], clk)
+         st1 == [stack EXCEPT ![n] = pre[1]]
+     IN IF pre[2]
+        THEN Step([op |-> "push", def |-> d], st1, frames, PanAfter("term", frames), [r |-> "time", n |-> 0],
+                  LastPan("push", "term"), {})
+        ELSE LET st2 == Append(st1, Child(pre[1], d, clk)) IN
+             Step([op |-> "push", def |-> d], st2, frames, "none", NoFail, LastPan("push", "none"), TimeViol(st2, clk, "push"))
 
-(* which re-charge of the parent failed in a PopContext that panicked *)
-PopFail(st) == LET n == Len(st) IN
-               IF n > 1 /\ ReqC(st[n-1], st[n].uc)[2] THEN [r |-> "cpu", n |-> st[n].uc]
-               ELSE IF n > 1 THEN [r |-> "mem", n |-> st[n].um] ELSE NoFail
+(* the ghost record of the request that failed inside a PopContext; a propagated kill keeps the original one *)
+PopFail(r) == IF r.why = "prop" THEN fail ELSE [r |-> r.why, n |-> r.n]
 
 Pop ==
   /\ RawOps /\ Quiet
-  /\ LET r == PopRes(stack)
+  /\ LET r == PopRes(stack, clk)
          k == IF r.pan THEN "term" ELSE "none"
          (* conservation: a completed pop charges the parent with exactly the child's use *)
          n == Len(stack)
@@ -215,15 +272,20 @@ Pop ==
                     /\ ((stack[n-1].tc /\ r.st[n-1].uc # (stack[n-1].uc + stack[n].uc) /\ r.st[n-1].uc # M - 1)
                         \/ (stack[n-1].tm /\ r.st[n-1].um # (stack[n-1].um + stack[n].um) /\ r.st[n-1].um # M - 1))
                  THEN {[inv |-> "ChargedToParent", why |-> "lost-charge", lvl |-> n-1]} ELSE {}
-     IN Step([op |-> "pop"], r.st, frames, PanAfter(k, frames), PopFail(stack),
-             IF r.pan THEN [op |-> "pop", pan |-> k] ELSE [op |-> "pop", pan |-> k, ret |-> ProjCtx(r.ret)], cons)
+         tv == IF r.pan THEN {} ELSE TimeViol(r.st, clk, "pop")
+     IN Step([op |-> "pop"], r.st, frames, PanAfter(k, frames), PopFail(r),
+             IF r.pan THEN [op |-> "pop", pan |-> k] ELSE [op |-> "pop", pan |-> k, ret |-> ProjCtx(r.ret)], cons \cup tv)
 
 RequireCPU(n) ==
   /\ Live
-  /\ LET r == ReqC(stack[Len(stack)], n)
+  /\ LET r == ReqC(stack[Len(stack)], n, clk)
          k == IF r[2] THEN "term" ELSE "none"
-     IN Step([op |-> "cpu", n |-> n], [stack EXCEPT ![Len(stack)] = r[1]], frames,
-             PanAfter(k, frames), [r |-> "cpu", n |-> n], LastPan("cpu", k), {})
+         c == stack[Len(stack)]
+         st1 == [stack EXCEPT ![Len(stack)] = r[1]]
+         looked == c.tc /\ c.tt /\ c.thr <= Add(c.uc, n)
+         tv == IF ~r[2] /\ looked THEN TimeViol(st1, clk, "cpu") ELSE {}
+     IN Step([op |-> "cpu", n |-> n], st1, frames,
+             PanAfter(k, frames), [r |-> r[3], n |-> n], LastPan("cpu", k), tv)
 
 RequireMem(n) ==
   /\ Live
@@ -251,10 +313,17 @@ SetStop(lv) ==
 
 CallBegin(d) ==
   /\ CallOps /\ Live /\ Len(stack) < MaxDepth /\ Len(frames) < MaxFrames
-  /\ LET c == Child(stack[Len(stack)], d)
-     IN Step([op |-> "begin", def |-> d], Append(stack, c),
-             Append(frames, [base |-> Len(stack) + 1, leffc |-> c.hc, leffm |-> c.hm]),
-             "none", NoFail, [op |-> "begin"], {})
+  /\ LET n == Len(stack)
+         pre == PushPre(stack[n], clk)
+         st1 == [stack EXCEPT ![n] = pre[1]]
+         c == Child(pre[1], d, clk)
+     IN IF pre[2]
+        THEN (* the termination leaves PushContext before CallContext has installed its deferred function *)
+             Step([op |-> "begin", def |-> d], st1, frames, PanAfter("term", frames), [r |-> "time", n |-> 0],
+                  LastPan("begin", "term"), {})
+        ELSE Step([op |-> "begin", def |-> d], Append(st1, c),
+                  Append(frames, [base |-> n + 1, leffc |-> c.hc, leffm |-> c.hm]),
+                  "none", NoFail, LastPan("begin", "none"), TimeViol(Append(st1, c), clk, "begin"))
 
 ButLast(s) == SubSeq(s, 1, Len(s) - 1)
 
@@ -263,27 +332,43 @@ CallEnd(err) ==
   /\ CallOps /\ Quiet /\ frames # <<>>
   /\ LET c == stack[Len(stack)]
          st1 == IF err THEN [stack EXCEPT ![Len(stack)] = [c EXCEPT !.status = "error"]] ELSE stack
-         r == PopRes(st1)
+         r == PopRes(st1, clk)
          fr == ButLast(frames)
          k == IF r.pan THEN "term" ELSE "none"
          truth == IF ~r.pan /\ r.ret.status # (IF err THEN "error" ELSE "done")
                   THEN {[inv |-> "StatusTruth", why |-> "normal-end-reports-" \o r.ret.status, lvl |-> Len(stack)]} ELSE {}
-     IN Step([op |-> "end", err |-> err], r.st, fr, PanAfter(k, fr), PopFail(st1),
+         (* a CallContext that ends leaves its context behind it, whatever happens to its caller *)
+         popped == IF Len(r.st) # Len(stack) - 1
+                   THEN {[inv |-> "PoppedAtEnd", why |-> "context-left-installed-after-" \o r.why, lvl |-> Len(stack)]} ELSE {}
+         tv == IF r.pan THEN {} ELSE TimeViol(r.st, clk, "end")
+     IN Step([op |-> "end", err |-> err], r.st, fr, PanAfter(k, fr), PopFail(r),
              IF r.pan THEN [op |-> "end", pan |-> k]
-             ELSE [op |-> "end", pan |-> k, ret |-> ProjCtx(r.ret), err |-> IF err THEN "lua" ELSE "none"], truth)
+             ELSE [op |-> "end", pan |-> k, ret |-> ProjCtx(r.ret), err |-> IF err THEN "lua" ELSE "none"], truth \cup popped \cup tv)
 
 (* a panic is in flight: run the deferred function of the innermost CallContext *)
 Unwind ==
   /\ CallOps /\ pan # "none" /\ frames # <<>>
-  /\ LET r == PopRes(stack)
+  /\ LET r == PopRes(stack, clk)
          fr == ButLast(frames)
          k == IF r.pan THEN "term" ELSE IF pan = "term" THEN "none" ELSE pan
+         popped == IF Len(r.st) # Len(stack) - 1
+                   THEN {[inv |-> "PoppedAtEnd", why |-> "context-left-installed-after-" \o r.why, lvl |-> Len(stack)]} ELSE {}
+         tv == IF k = "none" THEN TimeViol(r.st, clk, "unwind") ELSE {}
          truth == IF ~r.pan /\ pan = "term" /\ r.ret.status # "killed"
                   THEN {[inv |-> "StatusTruth", why |-> "terminated-reports-" \o r.ret.status, lvl |-> Len(stack)]} ELSE {}
          exact == IF ~r.pan /\ pan = "term" THEN RecoverViol(r.st, fr, fail) ELSE {}
-     IN Step([op |-> "unwind"], r.st, fr, PanAfter(k, fr), IF r.pan THEN PopFail(stack) ELSE fail,
+     IN Step([op |-> "unwind"], r.st, fr, PanAfter(k, fr), IF r.pan THEN PopFail(r) ELSE fail,
              IF k = "none" THEN [op |-> "unwound", pan |-> k, ret |-> ProjCtx(r.ret), err |-> "term"]
-             ELSE [op |-> "unwound", pan |-> k], truth \cup exact)
+             ELSE [op |-> "unwound", pan |-> k], truth \cup exact \cup popped \cup tv)
+
+(* time passes (between two calls of the API: the manager is sequential) *)
+Tick(d) ==
+  /\ Quiet /\ clk + d <= MaxClk
+  /\ clk' = clk + d
+  /\ hist' = IF Emitting THEN Append(hist, [op |-> "tick", n |-> d]) ELSE hist
+  /\ last' = [op |-> "tick", pan |-> "none"]
+  /\ UNCHANGED <<stack, frames, pan, fail>>
+  /\ Emit([h |-> hist', exp |-> [stack |-> ProjStack(stack), pan |-> pan, last |-> last', nframes |-> Len(frames)], viol |-> {}])
 
 Next ==
   \/ \E d \in Defs : Push(d) \/ CallBegin(d)
@@ -293,6 +378,7 @@ Next ==
   \/ \E lv \in {"soft", "hard"} : SetStop(lv)
   \/ \E e \in BOOLEAN : CallEnd(e)
   \/ Unwind
+  \/ \E d \in Ticks : Tick(d)
 
 Spec == Init /\ [][Next]_vars
 
